@@ -475,6 +475,29 @@ def wl_toplevel(ctx, rng, i):
                 pass
     except family() as e:
         ctx.violation("valid-registration-refused", "using two registered toplevel-property-extensions together raised %s: %s" % (type(e).__name__, str(e)[:100]), dict(w, exception=repr(e)))
+    # one Python class decorated for two types, each with an extension of its own (and then for a third without one): every registration
+    # stays what it was when it was made
+    try:
+        with warnings.catch_warnings():
+            warnings.simplefilter("ignore")
+            shared_body = type("SharedBody", (object,), {})
+            names = ["x-stixmon-c19-%s-twice%d-%s" % (ctx.seed, i, c_) for c_ in "abc"]
+            exts = ["extension-definition--" + V.uuid_text(rng, 4) for _ in range(2)]
+            dec3 = stix2.v21.CustomObject if i % 2 == 0 else stix2.v21.CustomObservable
+            cls_a = dec3(names[0], [("prop_one", P.StringProperty())], extension_name=exts[0])(shared_body)
+            first = list(cls_a(prop_one="v").get("extensions", {}))
+            cls_b = dec3(names[1], [("prop_one", P.StringProperty())], extension_name=exts[1])(shared_body)
+            cls_c = dec3(names[2], [("prop_one", P.StringProperty())])(shared_body)
+            ctx.ev()
+            ctx.count("classes_decorated_repeatedly")
+            for lab, c_, want in (("first type, after the second was registered", cls_a, [exts[0]]), ("second type", cls_b, [exts[1]]), ("third type (declared without an extension)", cls_c, [])):
+                got_e = list(c_(prop_one="v").get("extensions", {}))
+                if got_e != want:
+                    ctx.violation("existing-registration-altered-by-later-one", "one class decorated for several types: objects of the %s carry extensions %s, expected %s (the first type's were %s when it was registered)" % (
+                        lab, [x[-6:] for x in got_e], [x[-6:] for x in want], [x[-6:] for x in first]), dict(w, types=names, extensions=exts, which=lab))
+                    break
+    except family() as e:
+        ctx.violation("valid-registration-refused", "decorating one class for several types raised %s: %s" % (type(e).__name__, str(e)[:100]), dict(w, exception=repr(e)))
     # a custom type with lists of every plain property class: its objects are accepted and round-trip like built-in ones
     lname = "x-stixmon-c19-%s-lists%d" % (ctx.seed, i)
     try:
